@@ -767,7 +767,10 @@ Bucket_maxminKey(Bucket *self, PyObject *args, int min)
         if ((rc = Bucket_findRangeEnd(self, key, min, 0, &offset)) <= 0)
         {
             if (rc < 0)
+            {
+                PER_UNUSE(self);
                 return NULL;
+            }
             empty_bucket = 0;
             goto empty;
         }
